@@ -254,6 +254,27 @@ def apply_op(b, op, inherit=True):
         b.stats["op:bundle"] += 1
     elif code == "rec":
         _apply_rec(b, op, inherit)
+    elif code == "refused":
+        # a call the library must refuse (a second, different value for a formal argument that is set): the caller catches
+        # the error and goes on using the document - which must be exactly what it was
+        if not b.records:
+            return
+        from prov.model import ProvException
+        from prov.identifier import Namespace
+        import datetime
+        si, rec, m = b.records[op[1] % len(b.records)]
+        fargs = [(a, t) for a, t in spec.formal_args(m["kind"]) if any(x == spec.PROV_NS + a for x, _ in m["attrs"])]
+        fargs = [(a, t) for a, t in fargs if not (m["kind"] == "membership" and a == "entity")]
+        if not fargs:
+            return
+        arg, typ = fargs[op[2] % len(fargs)]
+        value = Namespace("refused", "http://refused.example/")["other%d" % op[2]] if typ == "ref" else datetime.datetime(1066, 10, 14, 9, op[2] % 60)
+        try:
+            rec.add_attributes([(Namespace("prov", spec.PROV_NS)[arg], value)])
+            b.stats["refused:accepted"] += 1     # (C05 decides whether that is right; the model follows the document)
+            m["attrs"].append((spec.PROV_NS + arg, ("qn", value.uri) if typ == "ref" else ("dt", value.isoformat(), None)))
+        except ProvException:
+            b.stats["op:refused_call"] += 1
     elif code == "attrs":
         if not b.records:
             b.stats["skipped:attrs"] += 1
